@@ -43,7 +43,6 @@ pub enum PasetoError {
   #[error("An unspecified ECSDA error occurred")]
   ECSDAError {
     ///An ECSDA cipher error
-    #[from]
     source: p384::ecdsa::Error,
   },
   #[cfg(feature = "blake2")]
